@@ -109,6 +109,153 @@ class RetTemp(ast.NodeTransformer):
         return node
 
 
+def _simple(e):
+    """evaluation of e has no side effect and cannot be observed: names, attributes, constants, subscripts of those,
+    arithmetic on those (no calls)"""
+    return not any(isinstance(x, (ast.Call, ast.Await, ast.Yield, ast.YieldFrom, ast.NamedExpr, ast.Lambda, ast.ListComp, ast.GeneratorExp,
+                                  ast.SetComp, ast.DictComp)) for x in ast.walk(e))
+
+
+class CmpFlip(ast.NodeTransformer):
+    """a < b  ->  b > a   (both operands free of calls)"""
+    FLIP = {ast.Lt: ast.Gt, ast.Gt: ast.Lt, ast.LtE: ast.GtE, ast.GtE: ast.LtE, ast.Eq: ast.Eq, ast.NotEq: ast.NotEq}
+
+    def visit_Compare(self, node):
+        self.generic_visit(node)
+        if len(node.ops) == 1 and type(node.ops[0]) in self.FLIP and _simple(node.left) and _simple(node.comparators[0]):
+            return ast.Compare(left=node.comparators[0], ops=[self.FLIP[type(node.ops[0])]()], comparators=[node.left])
+        return node
+
+
+class NestAnd(ast.NodeTransformer):
+    """if a and b: X   (no else)  ->  if a: if b: X"""
+    def visit_If(self, node):
+        self.generic_visit(node)
+        if not node.orelse and isinstance(node.test, ast.BoolOp) and isinstance(node.test.op, ast.And) and len(node.test.values) == 2:
+            a, b = node.test.values
+            return ast.If(test=a, body=[ast.If(test=b, body=node.body, orelse=[])], orelse=[])
+        return node
+
+
+class TestTemp(ast.NodeTransformer):
+    """if T: ...  ->  _t = T; if _t: ...   (plain `if` statements that are not an elif)"""
+    def _block(self, stmts, is_elif_block=False):
+        out = []
+        for i, s in enumerate(stmts):
+            s = self.visit(s)
+            if isinstance(s, ast.If) and not (is_elif_block and i == 0 and len(stmts) == 1) and not isinstance(s.test, (ast.Name, ast.Constant)):
+                out.append(ast.Assign(targets=[ast.Name(id='_t', ctx=ast.Store())], value=s.test, lineno=s.lineno))
+                s.test = ast.Name(id='_t', ctx=ast.Load())
+            out.append(s)
+        return out
+
+    def generic_visit(self, node):
+        for fld in ('body', 'orelse', 'finalbody'):
+            blk = getattr(node, fld, None)
+            if isinstance(blk, list) and blk and isinstance(blk[0], ast.stmt):
+                setattr(node, fld, self._block(blk, is_elif_block=(fld == 'orelse' and isinstance(node, ast.If))))
+        for h in getattr(node, 'handlers', []) or []:
+            h.body = self._block(h.body)
+        return node
+
+    def visit_Lambda(self, node):
+        return node
+
+
+class Early(ast.NodeTransformer):
+    """if c: A...return  else: B   ->   if c: A...return ; B"""
+    def _block(self, stmts):
+        out = []
+        for s in stmts:
+            s = self.visit(s)
+            if isinstance(s, ast.If) and s.orelse and s.body and isinstance(s.body[-1], (ast.Return, ast.Raise, ast.Continue, ast.Break)):
+                rest, s.orelse = s.orelse, []
+                out.append(s)
+                out.extend(rest)
+            else:
+                out.append(s)
+        return out
+
+    def generic_visit(self, node):
+        for fld in ('body', 'orelse', 'finalbody'):
+            blk = getattr(node, fld, None)
+            if isinstance(blk, list) and blk and isinstance(blk[0], ast.stmt):
+                setattr(node, fld, self._block(blk))
+        for h in getattr(node, 'handlers', []) or []:
+            h.body = self._block(h.body)
+        return node
+
+    def visit_Lambda(self, node):
+        return node
+
+
+class Range0(ast.NodeTransformer):
+    """range(n) -> range(0, n);  x[:k] -> x[0:k]"""
+    def visit_Call(self, node):
+        self.generic_visit(node)
+        if isinstance(node.func, ast.Name) and node.func.id == 'range' and len(node.args) == 1 and not node.keywords:
+            node.args = [ast.Constant(value=0), node.args[0]]
+        return node
+
+    def visit_Slice(self, node):
+        self.generic_visit(node)
+        if node.lower is None and node.upper is not None and node.step is None:
+            u = node.upper
+            # x[:k] = x[0:k] for every int k (negative k included)
+            node.lower = ast.Constant(value=0)
+        return node
+
+
+class NotIn(ast.NodeTransformer):
+    """a not in b -> not (a in b);  a is not b -> not (a is b);  a != b stays"""
+    def visit_Compare(self, node):
+        self.generic_visit(node)
+        if len(node.ops) == 1 and isinstance(node.ops[0], ast.NotIn):
+            return ast.UnaryOp(op=ast.Not(), operand=ast.Compare(left=node.left, ops=[ast.In()], comparators=node.comparators))
+        if len(node.ops) == 1 and isinstance(node.ops[0], ast.IsNot):
+            return ast.UnaryOp(op=ast.Not(), operand=ast.Compare(left=node.left, ops=[ast.Is()], comparators=node.comparators))
+        return node
+
+
+class Chain(ast.NodeTransformer):
+    """a < b < c  ->  a < b and b < c   (b free of calls)"""
+    def visit_Compare(self, node):
+        self.generic_visit(node)
+        if len(node.ops) == 2 and _simple(node.comparators[0]):
+            import copy
+            b = node.comparators[0]
+            return ast.BoolOp(op=ast.And(), values=[ast.Compare(left=node.left, ops=[node.ops[0]], comparators=[b]),
+                                                    ast.Compare(left=copy.deepcopy(b), ops=[node.ops[1]], comparators=[node.comparators[1]])])
+        return node
+
+
+class Unpack(ast.NodeTransformer):
+    """a, b = x, y  ->  a = x; b = y   when the targets are plain names that no right-hand side reads"""
+    def _block(self, stmts):
+        out = []
+        for s in stmts:
+            s = self.visit(s)
+            if isinstance(s, ast.Assign) and len(s.targets) == 1 and isinstance(s.targets[0], ast.Tuple) and isinstance(s.value, ast.Tuple) \
+                    and len(s.targets[0].elts) == len(s.value.elts) and all(isinstance(t, ast.Name) for t in s.targets[0].elts):
+                tn = {t.id for t in s.targets[0].elts}
+                reads = {x.id for v in s.value.elts for x in ast.walk(v) if isinstance(x, ast.Name)}
+                if not (tn & reads) and all(_simple(v) for v in s.value.elts):
+                    for t, v in zip(s.targets[0].elts, s.value.elts):
+                        out.append(ast.Assign(targets=[t], value=v, lineno=s.lineno))
+                    continue
+            out.append(s)
+        return out
+
+    def generic_visit(self, node):
+        for fld in ('body', 'orelse', 'finalbody'):
+            blk = getattr(node, fld, None)
+            if isinstance(blk, list) and blk and isinstance(blk[0], ast.stmt):
+                setattr(node, fld, self._block(blk))
+        for h in getattr(node, 'handlers', []) or []:
+            h.body = self._block(h.body)
+        return node
+
+
 def main():
     kind, dest = sys.argv[1], sys.argv[2]
     repo = sys.argv[3] if len(sys.argv) > 3 else '/repo'
@@ -118,7 +265,8 @@ def main():
     for sub in ('pyiga', 'scripts'):
         shutil.copytree(os.path.join(repo, sub), os.path.join(dest, sub),
                         ignore=shutil.ignore_patterns('*.so', '*.c', '*.cpp', '__pycache__', 'build', '*.o'))
-    T = {'rename': Rename, 'ifswap': IfSwap, 'temp': RetTemp}[kind]
+    T = {'rename': Rename, 'ifswap': IfSwap, 'temp': RetTemp, 'cmpflip': CmpFlip, 'nestand': NestAnd, 'testtemp': TestTemp,
+         'early': Early, 'range0': Range0, 'notin': NotIn, 'chain': Chain, 'unpack': Unpack}[kind]
     n = 0
     for root, _d, files in os.walk(os.path.join(dest, 'pyiga')):
         for f in files:
